@@ -70,6 +70,7 @@ func (p c11) Run(c *core.Ctx) {
 	cfg := gen.DefaultFlow()
 	cfg.StartNotFirst = true
 	cfg.DupTitles = true
+	cfg.EmptyTitle = true
 	cfg.VisitLines = true
 	cfg.WJump = 16
 	cfg.WStop = 1
